@@ -230,6 +230,11 @@ func grammarFrames() []frameSpec {
 	add("hardcert-legacy-held-key", cat([]byte{31}, certH1.Marshal()), true, wantText("SUCCESS"), anyT)
 	add("hardcert-legacy-plain-key", cat([]byte{31}, k1.Marshal()), true, wantNotText("SUCCESS"), anyT)
 	add("hardcert-new-utf8-comment", newEnc(certH1.Marshal(), "ü 日本 \x00"), true, wantText("SUCCESS"), anyT)
+	// a refused add-hardware-certificate request whose comment is 5 MiB of unprintable bytes (a frame well under the
+	// 16 MiB limit): whatever the refusal says, it is ONE response frame
+	add("hardcert-new-absent-key-comment5MiB-nul", newEnc(certH3.Marshal(), string(bytes.Repeat([]byte{0}, 5<<20))), true, wantNotText("SUCCESS"), anyT)
+	add("hardcert-new-absent-key-comment5MiB-ff", newEnc(certH3.Marshal(), string(bytes.Repeat([]byte{0xff}, 5<<20))), true, wantNotText("SUCCESS"), anyT)
+	add("hardcert-new-held-key-comment5MiB-nul", newEnc(certH1.Marshal(), string(bytes.Repeat([]byte{0}, 5<<20))), true, wantText("SUCCESS"), anyT)
 	add("hardcert-code-only", []byte{31}, false, nil, anyT)
 	add("hardcert-truncated-blob", newEnc(certH1.Marshal(), "hw")[:40], false, nil, anyT)
 	add("hardcert-new-trailing", append(newEnc(certH1.Marshal(), "hw"), 1, 2), false, nil, anyT)
